@@ -31,6 +31,8 @@ def _key_by_repr(tree):
                                            lambda n: stmts('CACHE_KEY = (repr(hint_sane), conf)')[0], scope='make_check_expr')
 
 
+REF = 'beartype/_check/convert/_reduce/_pep/pep484/redpep484ref.py'
+
 VARIANTS = {
     # ---- R4: clear list complete ------------------------------------------------------------------
     'clear-forgets-check-expr-table': tseeded(CLR, lambda t: replace_where(
@@ -61,6 +63,17 @@ VARIANTS = {
         'a pooled dictionary escapes to the caller and is handed to the next acquirer as well'),
     # ---- R6 -------------------------------------------------------------------------------------------------
     'memoised-called-by-keyword': tseeded(DOORF, lambda t: _kwcall(t), 'C14.R6'),
+    # ---- R11 / R12 / R13 ---------------------------------------------------------------------------------------------
+    'tester-table-aliases-raiser-table': tseeded(DOORF, lambda t: replace_where(
+        t, lambda n: isinstance(n, (ast.Assign, ast.AnnAssign)) and 'TESTER' in ast.unparse(n.targets[0] if isinstance(n, ast.Assign) else n.target)
+        and isinstance(n.value, ast.Dict), lambda n: (setattr(n, 'value', expr('_HINT_CONF_EXCEPTION_PREFIX_TO_FUNC_RAISER')) or n)), 'C14.R11',
+        'seeded C14-23'),
+    'forward-reference-metadata-cacheable': tseeded(REF, lambda t: replace_where(
+        t, lambda n: isinstance(n, ast.keyword) and n.arg == 'is_check_expr_cacheable', lambda n: ast.keyword(arg='is_check_expr_cacheable', value=expr('True')),
+        scope='reduce_hint_pep484_ref'), 'C14.R12', 'seeded C14-21'),
+    'hintsane-eq-trusts-the-hash': tseeded(SANE, lambda t: replace_where(
+        t, lambda n: isinstance(n, ast.Return), lambda n: stmts('return self._hash == other._hash if isinstance(other, HintSane) else NotImplemented')[0],
+        scope='HintSane.__eq__'), 'C14.R13', 'seeded C01-23'),
     # ---- neutral ------------------------------------------------------------------------------------------------
     'n-roundtrip-clear': roundtrip(CLR),
     'n-roundtrip-checkmake': roundtrip(CMK),
